@@ -381,4 +381,46 @@ theorem golden_holey_init_tri :
   ⟨decode_of_decodesTo (by decide +kernel),
    encode_eq_literal _ holey_init_triKeys _ (by decide +kernel) (by decide +kernel) (by decide +kernel)⟩
 
+/-! ### 10. an independent decoder written from the layout description (final round)
+
+`Codec.decodeLayout` (Model/CodecLayout.lean) is written strictly from the layout comment of `binary_output.py`
+and the documented constants, NOT from `binary_input.py`: exact string lengths (a short body is an error), end of
+input or an unknown type byte inside a value is an error, a string value is never absent, an unknown record marker
+is an error, a cell record before any metadata record is an error, no constructor rules. (`Codec.decode`, by
+contrast, mirrors the reader statement by statement, quirks included.) -/
+
+/-- **"an independent decoder written from that description recovers exactly the same triangle"** -/
+theorem decodeLayout_encode (t : RawTriangle) (h : wf t = true) : decodeLayout (encode t) = .ok t :=
+  decodeLayout_encode_main t h
+
+/-- … also from the file of the writer as written (coherent triangles) -/
+theorem decodeLayout_encodePy (t : RawTriangle) (h : wf t = true) (hc : coherent t = true) :
+    decodeLayout (encodePy t) = .ok t := by
+  rw [encodePy_eq_encode t hc]; exact decodeLayout_encode t h
+
+/-- it reads the literal files written by `to_binary` of the verified tree … -/
+theorem decodeLayout_literals :
+    decodeLayout exTriangleBytes = .ok exTriangle ∧ decodeLayout exCellBytes = .ok exCellTriangle ∧
+    decodeLayout exCumBytes = .ok exCumTriangle :=
+  ⟨decodeLayout_of_decodesTo (by decide +kernel), decodeLayout_of_decodesTo (by decide +kernel),
+   decodeLayout_of_decodesTo (by decide +kernel)⟩
+
+set_option maxRecDepth 100000 in
+open Bermuda.Codec.Golden in
+/-- … and the shipped golden files, to their recorded contents -/
+theorem decodeLayout_golden :
+    decodeLayout meyersBytes = .ok meyersCells ∧ decodeLayout holey_init_triBytes = .ok holey_init_triCells ∧
+    decodeLayout missing_evalBytes = .ok missing_evalCells ∧ decodeLayout missing_cellsBytes = .ok missing_cellsCells :=
+  ⟨decodeLayout_of_decodesTo (by decide +kernel), decodeLayout_of_decodesTo (by decide +kernel),
+   decodeLayout_of_decodesTo (by decide +kernel), decodeLayout_of_decodesTo (by decide +kernel)⟩
+
+/-- strictness is real: a file cut inside the last string of the pool, a trailing unknown marker and a cell record
+without a preceding metadata record are errors for `decodeLayout` (the reader's mirror `decode` accepts the second) -/
+example :
+    (decodeLayout (exCellBytes ++ [0x00])).toBool = false ∧ (decode (exCellBytes ++ [0x00])).toBool = true ∧
+    (decodeLayout (exCellBytes.take 12)).toBool = false ∧
+    (decodeLayout [0xAF, 0x36, 0x01, 0x00, 0x01, 0x00, 0x00, 0x11, 0xE3, 0x07, 1, 1, 0xE3, 0x07, 3, 31, 0xE3, 0x07, 6, 30,
+      0x88]).toBool = false := by
+  decide +kernel
+
 end Bermuda.Properties.C06
